@@ -1365,6 +1365,28 @@ func retCases(fn *ssa.Function) []retCase {
 	return out
 }
 
+// retCasesErr is retCases, but a return is split only when its *error* result is a join formed in the return block
+// itself (the single-exit style); other joined results stay as they are and are reasoned about where the return is.
+func retCasesErr(fn *ssa.Function) []retCase {
+	var out []retCase
+	for _, rc := range retCases(fn) {
+		if rc.pred < 0 {
+			out = append(out, rc)
+			continue
+		}
+		ret := rc.ret
+		ev := ret.Results[len(ret.Results)-1]
+		if ph, ok := ev.(*ssa.Phi); ok && ph.Block() == ret.Block() {
+			out = append(out, rc)
+			continue
+		}
+		if rc.pred == 0 {
+			out = append(out, retCase{ret: ret, at: ret, results: ret.Results, pred: -1})
+		}
+	}
+	return out
+}
+
 // cellAtCase: value of receiver int field at the return, on the given incoming edge.
 func cellAtCase(fa *FA, rc retCase, field string) *Lin {
 	key := "P:" + fa.fn.Params[0].Name() + "." + field
@@ -2103,7 +2125,9 @@ func neededWalkF(P *Program, r *Result, rule string, fa *FA, fn *ssa.Function, b
 							if succRet != nil {
 								isSucc = succRet(ret)
 							} else {
-								isSucc = isNilConst(ret.Results[res.Len()-1])
+								// anything that is not known to carry an error may be a success
+								ev := ret.Results[res.Len()-1]
+								isSucc = isNilConst(ev) || (!isKnownError(ev) && !fa.prove(ineqGE(fa.nilExpand(ev), linConst(1)), ret.Block(), rootCtx))
 							}
 							if isSucc {
 								okAll = false
@@ -2277,6 +2301,28 @@ func beLoadRule(P *Program, r *Result, rule string) {
 			return 0, false
 		}
 		c.leaf = func(v ssa.Value) *bx {
+			// binary.BigEndian.UintN((*[N]byte)(p)[k:]) — the library's own big-endian load over a view of the bytes at p
+			if call, isCall := v.(*ssa.Call); isCall {
+				if n := isBigEndianGet(call.Common().StaticCallee()); n > 0 && len(call.Common().Args) == 2 {
+					if sl, isSl := call.Common().Args[1].(*ssa.Slice); isSl && sl.High == nil && sl.Max == nil {
+						if cv, isCv := sl.X.(*ssa.Convert); isCv && isUnsafePointer(cv.X.Type()) {
+							if at, isArr := deref(cv.Type()).Underlying().(*types.Array); isArr && isByteType(at.Elem()) {
+								k, okP := byteAt(cv.X)
+								low := int64(0)
+								okL := true
+								if sl.Low != nil {
+									low, okL = constInt(sl.Low)
+								}
+								if okP && okL && low >= 0 && low+int64(n) <= at.Len() {
+									p := lpos{c: k + low}
+									return &bx{op: "be", k: uint64(n), w: 8 * n, p: &p}
+								}
+							}
+						}
+					}
+				}
+				return nil
+			}
 			ld, ok := v.(*ssa.UnOp)
 			if !ok || ld.Op != token.MUL {
 				return nil
@@ -2324,4 +2370,9 @@ func beLoadRule(P *Program, r *Result, rule string) {
 		r.add(rule, shortName(fn), "load", fmt.Sprintf("the unsafe loader returns the %d-bit big-endian word at its pointer", w), P.pos(fn.Pos()), ok, "computed: "+e.render())
 	}
 	r.require("an unsafe big-endian loader used by the pointer skipper", n > 0)
+}
+
+func isByteType(t types.Type) bool {
+	b, ok := t.Underlying().(*types.Basic)
+	return ok && b.Kind() == types.Uint8
 }
